@@ -54,4 +54,19 @@ def _(query):
     ensures((log_count("flask.make_response") == 1) == (log_raised("WebStore.get_metadata") == 0 and log_raised("WebStore.get_bytes") == 0), "a-normal-answer-exactly-when-the-store-answered")
 
 
-prop("C20", fucs=["liquer.server.blueprint.store_get"])
+@contract("liquer.server.blueprint.store_set", params=dict(query=Str), returns=Ref("HttpAnswer"), opaque={"print_exc": NoneT},
+          locals=dict(metadata=WebMeta))
+def _(query):
+    raises(Exception, label="the-metadata-lookup-failed-for-another-reason-than-a-missing-key")
+    ensures(log_count("WebStore.get_metadata") == 1 and log_arg("WebStore.get_metadata", "key") == query
+            and log_arg("WebStore.get_metadata", "self") == log_result("liquer.store.get_store"), "looks-up-the-metadata-the-store-already-holds-for-the-key,once")
+    ensures(log_count("WebStore.store") == 1 and log_arg("WebStore.store", "key") == query
+            and log_arg("WebStore.store", "self") == log_result("liquer.store.get_store")
+            and log_arg("WebStore.store", "data") == log_result("FlaskRequest.get_data"), "stores-exactly-the-request-body-under-the-key,once")
+    ensures(implies(log_raised("WebStore.get_metadata") == 0, log_arg("WebStore.store", "metadata") == log_result("WebStore.get_metadata")),
+            "together-with-the-metadata-already-held-for-the-key")
+    ensures(log_count("flask.jsonify") == 1 and result is log_result("flask.jsonify")
+            and rec_get(log_arg("flask.jsonify", "d"), "status") == ite(log_raised("WebStore.store") > 0, "ERROR", "OK"), "status-ERROR-exactly-when-the-store-refused")
+
+
+prop("C20", fucs=["liquer.server.blueprint.store_get", "liquer.server.blueprint.store_set"])
